@@ -14,6 +14,8 @@ import Mahotas.Proofs.C19Burnside
 import Mahotas.Proofs.C19HaralickFeat
 import Mahotas.Proofs.C19CoocData
 import Mahotas.Proofs.C19Entropy
+import Mahotas.Proofs.C19IntegralRing
+import Mathlib.Data.ZMod.Basic
 namespace Mahotas.C19
 open Mahotas Mahotas.Generated
 
@@ -417,6 +419,25 @@ theorem C19_haralick_entropies :
     rw [e2, ← e1]; exact hg
   exact ⟨entropies_nonneg m c hlen hT, hg, by linarith, e1, e2, f13_arg_bounds hxy2 f9 hg2⟩
 
+/-- **C19-T4 (integral image, any additive commutative group — in particular wrap-around integers).** The same
+statement as `C19_integral_prefix` for the generic model `integral` (the C++ template `integral<T>`) over **every**
+`[AddCommGroup α]`: the in-place recurrence is the two-dimensional prefix sum at every pixel and keeps the shape.
+At `α = ZMod (2^bits)` this is the arithmetic of the integer dtypes (unsigned, and signed with `-fno-strict-overflow`):
+the recurrence evaluated *with* wrap-around equals the prefix sum taken modulo `2^bits` — what the check compares the
+real output with (`wrapTo` of the exact sum). -/
+theorem C19_integral_prefix_any_group {α : Type} [AddCommGroup α] (w : Nat) (rows : List (List α))
+    (hw : ∀ r ∈ rows, r.length = w) :
+    (integral w rows).length = rows.length ∧ (∀ r ∈ integral w rows, r.length = w) ∧
+    ∀ i j, i < rows.length → j < w → ((integral w rows).getD i []).getD j 0 = prefix2 rows i j :=
+  ⟨Gen.integral_length w rows, Gen.integral_row_length w rows hw,
+   fun i j hi hj => Gen.integral_eq_prefix2 w rows hw i j hi hj⟩
+
+/-- **C19-T5 (moments, any commutative ring).** `C19_moments_def` for the generic model over every commutative ring,
+every embedding `cast` of the indices and every centre — e.g. `ℚ` or `ℝ` with the (non-integer) centre of mass. -/
+theorem C19_moments_def_any_ring {R : Type} [CommRing R] (cast : Nat → R) (rows : List (List R)) (p0 p1 : Nat)
+    (c0 c1 : R) : moments cast rows p0 p1 c0 c1 = momentsSpec cast rows p0 p1 c0 c1 :=
+  Gen.moments_eq_spec cast rows p0 p1 c0 c1
+
 /-! non-vacuity -/
 example : coocCount [2, 3] (fun p => ([0, 1, 1, 1, 0, 1].getD (ravelI [2, 3] p) 0)) [0, 1] 1 1 = 1 ∧
     coocSym [2, 3] (fun p => ([0, 1, 1, 1, 0, 1].getD (ravelI [2, 3] p) 0)) [0, 1] 0 1 = 3 := by decide
@@ -472,3 +493,6 @@ example : entropyG 0 log2R [1 / 2, 1 / 2] = 1 := by
     rw [one_div, Real.logb_inv, Real.logb_self_eq_one (by norm_num)]
   simp only [List.map_cons, List.map_nil, List.sum_cons, List.sum_nil, xlog, log2R, h]
   norm_num
+/-- `uint8` arithmetic: 200 + 100 wraps to 44 -/
+example : integral 2 ([[200, 100], [100, 200]] : List (List (ZMod 256))) = [[200, 44], [44, 88]] := by decide
+example : moments (fun n => (n : Rat)) [[1, 2], [3, 4]] 2 0 (1 / 2) 0 = 5 / 2 := by decide +kernel
